@@ -209,6 +209,7 @@ def install(I):
     E["attrs.astuple"] = Builtin("attrs.astuple", _attrs_astuple)
     E["deprecated.deprecated"] = Builtin("deprecated", lambda i, a, k: Builtin("deprecated.deco", lambda i2, a2, k2: a2[0]))
     E["collections.deque"] = _deque_class(I, mkcls, meth)
+    E["collections.Counter"] = _counter_class(I, mkcls, meth)
     def _chain(i, a, k):
         def gen():
             for x in a:
@@ -384,6 +385,99 @@ def _attrs_astuple(i, a, k):
     inst = a[0]
     cls = i.type_of(inst)
     return tuple(i.getattr_(inst, f.name) for f in cls.attrs_fields)
+
+
+def _counter_class(I, mkcls, meth):
+    """collections.Counter over a concrete-spine dict (keys compared with the executor's equality, counts are ints / symbolic ints)"""
+    import ast as _ast
+    C = mkcls("Counter")
+
+    def count_into(i, d, it):
+        if isinstance(it, DictV):
+            for k_, v_ in zip(list(it.keys), list(it.vals)):
+                j = i.dict_find(d, k_)
+                if j >= 0:
+                    d.vals[j] = i.binop(_ast.Add(), d.vals[j], v_)
+                else:
+                    d.keys.append(k_)
+                    d.vals.append(v_)
+            return
+        if isinstance(it, Obj) and it.tag == "Counter":
+            return count_into(i, d, it.fields["d"])
+        for x in i.iterate(it):
+            i.check_hashable(x)
+            j = i.dict_find(d, x)
+            if j >= 0:
+                d.vals[j] = i.binop(_ast.Add(), d.vals[j], 1)
+            else:
+                d.keys.append(x)
+                d.vals.append(1)
+
+    def new(i, cls, a, k):
+        d = DictV()
+        if a and a[0] is not None:
+            count_into(i, d, a[0])
+        for k_, v_ in k.items():
+            i.dict_set(d, k_, v_)
+        return Obj(C, {"d": d}, tag="Counter")
+    C.ns["__pyvc_new__"] = new
+
+    def D(x):
+        return x.fields["d"]
+
+    @meth(C, "__getitem__")
+    def _get(i, a, k):
+        j = i.dict_find(D(a[0]), a[1])
+        return D(a[0]).vals[j] if j >= 0 else 0
+    meth(C, "__setitem__")(lambda i, a, k: i.dict_set(D(a[0]), a[1], a[2]))
+    meth(C, "__len__")(lambda i, a, k: len(D(a[0]).keys))
+    meth(C, "__iter__")(lambda i, a, k: ListV(list(D(a[0]).keys)))
+    meth(C, "__contains__")(lambda i, a, k: i.dict_find(D(a[0]), a[1]) >= 0)
+    meth(C, "keys")(lambda i, a, k: ListV(list(D(a[0]).keys)))
+    meth(C, "values")(lambda i, a, k: ListV(list(D(a[0]).vals)))
+    meth(C, "items")(lambda i, a, k: ListV(list(zip(D(a[0]).keys, D(a[0]).vals))))
+    meth(C, "update")(lambda i, a, k: count_into(i, D(a[0]), a[1]) if len(a) > 1 else None)
+
+    @meth(C, "get")
+    def _getd(i, a, k):
+        j = i.dict_find(D(a[0]), a[1])
+        return D(a[0]).vals[j] if j >= 0 else (a[2] if len(a) > 2 else None)
+
+    @meth(C, "total")
+    def _total(i, a, k):
+        t = 0
+        for v_ in D(a[0]).vals:
+            t = i.binop(_ast.Add(), t, v_)
+        return t
+
+    def combine(sign):
+        def fn(i, a, k):
+            x, y = a[0], a[1]
+            if not (isinstance(y, Obj) and y.tag == "Counter"):
+                return NOT_IMPLEMENTED
+            out = DictV()
+            keys = list(D(x).keys)
+            for k_ in D(y).keys:
+                if i.dict_find(D(x), k_) < 0:
+                    keys.append(k_)
+            for k_ in keys:
+                jx, jy = i.dict_find(D(x), k_), i.dict_find(D(y), k_)
+                vx = D(x).vals[jx] if jx >= 0 else 0
+                vy = D(y).vals[jy] if jy >= 0 else 0
+                v_ = i.binop(_ast.Add() if sign > 0 else _ast.Sub(), vx, vy)
+                # only positive counts are kept
+                if i.st.branch(i.truth(i.wrap_bool(i.compare(_ast.Gt(), v_, 0))), "counter-positive"):
+                    out.keys.append(k_)
+                    out.vals.append(v_)
+            return Obj(C, {"d": out}, tag="Counter")
+        return fn
+    meth(C, "__sub__")(combine(-1))
+    meth(C, "__add__")(combine(+1))
+
+    @meth(C, "__eq__")
+    def _eq(i, a, k):
+        raise Unsupported("Counter equality")
+    return C
 
 
 def _deque_class(I, mkcls, meth):
